@@ -147,8 +147,9 @@ def run(ctx):
         return
     model = vlib.ocaml_build("c10", "Extract_C10.v", os.path.join(vlib.VERIF, "ocaml", "c10", "driver.ml"))
     exe = udbl.build_harness("asan")
-    tpl = udbl.workspace("plain")
     root = ctx.scratch("c10")
+    # private copy: the cached template is replaced when /repo changes during the run
+    tpl = vlib.copy_workspace(udbl.workspace("plain"), os.path.join(root, "tpl"))
     rnd = random.Random(ctx.seed)
 
     # ------------------------------------------------------------------ histories
